@@ -358,7 +358,7 @@ def C12(tier, seed):
                  steps_fn=lambda prog: [('exec1',), ('execq',)],
                  bfs_steps_fn=lambda prog: [('start',)] + [('enq', e, '0') for e in prog.events] + [('exec1',)],
                  conf_filter=lambda c: c.started and any(q[0] == '<c>' for q in c.queue) and len(c.queue) <= (3 if tier == 'thorough' else 2), bfs_depth=6, max_confs=120,
-                 timeout=90, unwind=8, strats=['pkG', 'nkG'])
+                 timeout=90, unwind=8, strats=['pkGA', 'nkGA'])
     # "the machine is not wedged": an exception aborts the entry cascade of a submachine that the switch policy leaves active
     lprogs = ['H2', 'H2_before_transition'] + (['H2_after_exit', 'H2_after_transition_action'] if tier == 'thorough' else [])
     for pname in lprogs:
